@@ -182,6 +182,15 @@ pub struct Sim {
     pub actions: Vec<Act>,
     pub trouble: Option<Trouble>,
     pub n: usize,
+    /// situations observed at the worker boundary (what state a process was in when a command
+    /// addressed to it was about to be consumed)
+    pub situations: std::collections::BTreeMap<&'static str, u64>,
+    /// run the C06 heap monitor after every worker step
+    pub heap_monitor: bool,
+    pub heap_violation: Option<(usize, crate::heapmon::HeapViolation)>,
+    pub heap_checks: u64,
+    pub heap_obs_max: crate::heapmon::HeapObs,
+    pub heap_roots: [u64; 8],
     rr: usize,
     pct_prio: Vec<u64>,
     pct_changes: Vec<usize>,
@@ -217,7 +226,7 @@ impl Sim {
         if let Some(b) = backend {
             env.set_effect_backend(b);
         }
-        Sim { sh, workers, env, clock: 0, actions: vec![], trouble: None, n, rr: 0, pct_prio: vec![], pct_changes: vec![] }
+        Sim { sh, workers, env, clock: 0, actions: vec![], trouble: None, n, situations: Default::default(), heap_monitor: false, heap_violation: None, heap_checks: 0, heap_obs_max: Default::default(), heap_roots: [0; 8], rr: 0, pct_prio: vec![], pct_changes: vec![] }
     }
 
     pub fn set_eager(&mut self, eager: bool) {
@@ -266,15 +275,30 @@ impl Sim {
         { let mut sh = self.sh.lock().unwrap(); sh.now = self.actions.len(); }
         match a {
             Act::StepWorker(w, q) => {
+                self.observe_situations(w);
                 quiver_core::verif::set_quantum(Some(q));
                 let clock = self.clock;
                 let worker = &mut self.workers[w];
                 let r = std::panic::catch_unwind(std::panic::AssertUnwindSafe(|| worker.step(clock)));
-                match r {
+                let did = match r {
                     Ok(Ok(did)) => did,
                     Ok(Err(e)) => { self.trouble = Some(Trouble::WorkerErr(w, format!("{}", e))); false }
                     Err(p) => { self.trouble = Some(Trouble::WorkerPanic(w, crate::pool::panic_msg(&p))); false }
+                };
+                if self.heap_monitor && self.trouble.is_none() && self.heap_violation.is_none() {
+                    match crate::heapmon::check_executor(self.workers[w].verif_executor()) {
+                        Ok(o) => {
+                            self.heap_checks += 1;
+                            for k in 0..8 { self.heap_roots[k] += o.roots_by_kind[k]; }
+                            if o.slots > self.heap_obs_max.slots { self.heap_obs_max.slots = o.slots; }
+                            if o.reachable > self.heap_obs_max.reachable { self.heap_obs_max.reachable = o.reachable; }
+                            if o.freed > self.heap_obs_max.freed { self.heap_obs_max.freed = o.freed; }
+                            self.heap_obs_max.exact_mismatch += o.exact_mismatch;
+                        }
+                        Err(v) => self.heap_violation = Some((w, v)),
+                    }
                 }
+                did
             }
             Act::StepEnv => {
                 let env = &mut self.env;
@@ -310,6 +334,46 @@ impl Sim {
                 moved
             }
             Act::Tick(dt) => { self.clock += dt; true }
+        }
+    }
+
+    fn proc_state(&self, w: usize, pid: ProcessId) -> &'static str {
+        let ex = self.workers[w].verif_executor();
+        let Some(p) = ex.get_process(pid) else { return "unknown" };
+        let sv = ex.verif_sched_view();
+        if p.result.is_some() && p.frames.is_empty() { "finished" }
+        else if sv.spawning.contains(&pid) { "spawning" }
+        else if sv.effecting.contains(&pid) { "effecting" }
+        else if sv.selecting.contains(&pid) { "selecting" }
+        else if p.select_state.as_ref().map(|s| s.receiving.is_some()).unwrap_or(false) { "mid_filter" }
+        else if p.select_state.is_some() { "in_select_runnable" }
+        else { "running" }
+    }
+
+    fn observe_situations(&mut self, w: usize) {
+        let cmds: Vec<(u8, ProcessId, bool)> = {
+            let sh = self.sh.lock().unwrap();
+            sh.cmd[w].visible.iter().filter_map(|(_, c)| match c {
+                Command::DeliverMessage { target, .. } => Some((0u8, *target, false)),
+                Command::UpdateAwaitResults { awaiter, results } => Some((1u8, *awaiter, results.values().any(|r| r.is_some()))),
+                Command::NotifySpawn { process_id, .. } => Some((2u8, *process_id, false)),
+                Command::QueryAndAwait { targets, .. } => targets.first().map(|t| (3u8, *t, false)),
+                _ => None,
+            }).collect()
+        };
+        for (kind, pid, some) in cmds {
+            let st = self.proc_state(w, pid);
+            let key: &'static str = match (kind, st, some) {
+                (0, "finished", _) => "deliver_to_finished", (0, "spawning", _) => "deliver_while_spawning", (0, "selecting", _) => "deliver_while_selecting",
+                (0, "mid_filter", _) => "deliver_mid_filter", (0, "effecting", _) => "deliver_while_effecting", (0, "unknown", _) => "deliver_to_unknown", (0, _, _) => "deliver_while_running",
+                (1, "spawning", false) => "await_answer_none_while_spawning", (1, "spawning", true) => "await_answer_some_while_spawning",
+                (1, "finished", _) => "await_answer_to_finished", (1, "selecting", true) => "await_answer_some_while_selecting", (1, "selecting", false) => "await_answer_none_while_selecting",
+                (1, "mid_filter", _) => "await_answer_mid_filter", (1, _, _) => "await_answer_while_running",
+                (2, "spawning", _) => "notify_spawn_while_spawning", (2, _, _) => "notify_spawn_other_state",
+                (3, "finished", _) => "query_target_finished", (3, "unknown", _) => "query_target_unknown", (3, _, _) => "query_target_live",
+                _ => "other",
+            };
+            *self.situations.entry(key).or_insert(0) += 1;
         }
     }
 
@@ -352,6 +416,7 @@ impl Sim {
         let start = self.actions.len();
         loop {
             if let Some(t) = &self.trouble { return RunEnd::Trouble(t.clone()); }
+            if self.heap_violation.is_some() { return RunEnd::Stopped; }
             if stop(self) { return RunEnd::Stopped; }
             if self.actions.len() - start >= max_steps { return RunEnd::StepCap; }
             let mut en = self.enabled();
